@@ -261,7 +261,7 @@ LEVELS = {
 
 NOT_APPLICABLE = {}
 
-TIES = {'C01': ['TieSettle'], 'C02': ['TieSettle', 'TieSettleMsg'], 'C03': ['TieOracleMsg', 'TieAnte'], 'C04': ['TieAnte'], 'C05': ['TieOracleEnd'], 'C06': ['TieOracleArith', 'TieSettle'], 'C08': ['TieOracleArith', 'TieOracleMsg'], 'C09': ['TieSettleMsg'], 'C10': ['TieSettle', 'TieOracleArith', 'TieSettleMsg'], 'C11': ['TieSettle'], 'C12': ['TieSettleMsg'], 'C13': ['TieSettle', 'TieSettleMsg'], 'C14': ['TieOracleEnd'], 'C15': ['TieOracleArith', 'TieOracleEnd'], 'C16': ['TieFee']}
+TIES = {'C01': ['TieSettle'], 'C02': ['TieSettle', 'TieSettleMsg'], 'C03': ['TieOracleMsg', 'TieAnte'], 'C04': ['TieAnte'], 'C05': ['TieOracleEnd'], 'C06': ['TieOracleArith', 'TieSettle'], 'C08': ['TieOracleArith', 'TieOracleMsg', 'TieOracleEnd'], 'C09': ['TieSettleMsg'], 'C10': ['TieSettle', 'TieOracleArith', 'TieSettleMsg'], 'C11': ['TieSettle'], 'C12': ['TieSettleMsg'], 'C13': ['TieSettle', 'TieSettleMsg'], 'C14': ['TieOracleEnd'], 'C15': ['TieOracleArith', 'TieOracleEnd'], 'C16': ['TieFee']}
 for _k in ('C01', 'C02', 'C08', 'C14', 'C15', 'C16'):
     TIES[_k] = TIES[_k] + ['TieSource' + _k]
 for _k in ('C01', 'C02', 'C09', 'C12', 'C17', 'C08', 'C10'):
